@@ -56,6 +56,9 @@ Definition script (olds : list tree) (news : list val) : list dir := add_x (alig
 
 (* ValueAdapter.assign: a node as a whole *)
 Definition is_unm (o : tree) : bool := match o with TUnm _ _ => true | _ => false end.
+(* contains_unmanaged: a user-controlled part anywhere in the expression *)
+Fixpoint has_unm (o : tree) : bool :=
+  match o with TLeaf _ _ => false | TUnm _ _ => true | TSeq _ l => existsb has_unm l end.
 Definition value_assign (F : flags) (o : tree) (n : val) : rtree :=
   if is_unm o then RKeep o                (* `if isinstance(old_value, Unmanaged): return old_value` *)
   else if negb (val_eqb (eval o) n) then (if f_fix F then RGen n else RKeep o)
